@@ -33,14 +33,16 @@ CONST_CFG = ("CONSTANTS\n  N = 4\n  Power <- PowerV\n  ProposerOf <- PropV\n  In
              "  SkipTimeoutCommit = FALSE\n  Impl <- ImplV\n")
 
 
-def mc_peer(table, sel, deep, deepnode, impl=()):
+def mc_peer(table, sel, deep, deepnode, impl=(), inits=("unknown", "known")):
     return {"MCgen.tla": ("---- MODULE MCgen ----\nEXTENDS MC_PeerMsgs\n%sSelV == %s\nDeepV == %s\nDeepNodeV == %s\n"
-                          "InitsV == {\"unknown\", \"known\"}\n====\n") % (consts(table, impl), tla_set(sel), tla_set(deep), tla_set(deepnode))}
+                          "InitsV == {%s}\n====\n") % (consts(table, impl), tla_set(sel), tla_set(deep), tla_set(deepnode),
+                                                      ", ".join('"%s"' % i for i in inits))}
 
 
-def cfg_peer(depth, dump=True, invariants=("NoPanic", "PeerStateOK", "OwnStateGossipable", "ClassesOK"), props=("RoundStateByCoreOnly", "RejectedIsInert")):
+def cfg_peer(depth, dump=True, invariants=("NoPanic", "PeerStateOK", "OwnStateGossipable", "CatchupBounded", "ClassesOK"),
+             props=("RoundStateByCoreOnly", "RejectedIsInert"), cat="full"):
     s = ("SPECIFICATION Spec\n" + CONST_CFG + "  Depth = %d\n  ClassSel <- SelV\n  Deep <- DeepV\n  DeepNode <- DeepNodeV\n"
-         "  PeerInits <- InitsV\nVIEW View\n") % depth
+         "  PeerInits <- InitsV\n  Cat = \"%s\"\nVIEW View\n") % (depth, cat)
     for i in invariants:
         s += "INVARIANT %s\n" % i
     for p in props:
@@ -120,10 +122,13 @@ def run(c):
               "wrong and unknown channels; unknown / empty / garbage type) - replayed on a real node of that class behind the real "
               "ConsensusManager; compared: panic, hang, allocation, lock health, accepted-or-rejected, peer state soundness, round state and "
               "signed messages after the real handleMsg, encode/decode round trip, the real gossip routines on the resulting state, an honest "
-              "peer afterwards, a late message after the stop; (2) byte-level mutants (truncations, bit flips, tag / length / varint rewrites, "
+              "peer afterwards, a late message after the stop; (1b) the catch-up round budget: directed vectors of up to 5-6 votes of ONE peer for "
+              "pairwise distinct untracked rounds (valid, bad signature, wrong index, wrong address, unknown key at every position), tracked rounds "
+              "and votes compared after every real handleMsg, plus a growth probe (300 such votes: the tracked rounds stay at PeerMsgs!CatchupLimit); (2) byte-level mutants (truncations, bit flips, tag / length / varint rewrites, "
               "random bodies) of every sampled accepted message: crash-freedom on the real reactor, and every effect they have is validated "
               "by TLC against the specification (PeerMsgsTrace); (3) tx-pool, evidence, PEX reactors and block-sync front: every transition of "
-              "MC_PeerReactors (state classes x semantic message classes, sequences of 3) replayed; (4) connection framing: every sequence of "
+              "MC_PeerReactors (state classes x semantic message classes, sequences of 3) replayed, each followed by an aftermath under timeouts "
+              "(mutex TryLock, an honest peer on the reactor's writer paths, Stop); (4) connection framing: every sequence of "
               "<= 4 hostile wire items replayed on a real MConnection, and every sequence of <= 3 sealed frames (length field 0 / 1025 / 2^32-1, broken "
               "MAC, half a frame) on the real SecretConnection + MConnection stack; non-trivial = specified rejected-with-stop, or specified to have an effect")
     c.assumptions = ["4 validators of equal power, one-part blocks, static validator set (KardiaNode.tla abstractions)",
@@ -161,6 +166,21 @@ def run(c):
         c.absorb(g)
         os.remove(dump)
         validate_mutant_trace(c, table, trace)
+    # (1b) the catch-up round budget: directed vectors of up to k votes of ONE peer for pairwise distinct untracked rounds
+    #      (valid, bad signature, wrong index, wrong address, unknown key at every position), the tracked rounds compared
+    #      after every real handleMsg; then the growth probe (300 such votes)
+    vsel = allc[1:] if th else [[3, 10], [5, 13], [2, 12], [7, 11], [4, 9]][c.seed % 5]
+    files = mc_peer(table, vsel, vsel, vsel, inits=("unknown",))
+    files["MCgen.cfg"] = cfg_peer(6 if th else 5, cat="votes")
+    dump = os.path.join(c.scratch, "peer-votes.dump")
+    r = c.tlc("peer", "MCgen.cfg", module="MCgen", files=files, dump_to=dump, timeout=3000, tag="MC_PeerMsgs vote vectors, classes %s" % vsel)
+    must(c, r, "MC_PeerMsgs vote vectors")
+    g = c.gotest("peer", "TestConsReplay", env=dict(PEER_DUMP=dump), timeout=3000, tag="replay vote vectors (catch-up round budget)")
+    c.absorb(g)
+    g = c.gotest("peer", "TestVoteRoundGrowth", env=dict(PEER_DUMP=dump), timeout=3000, tag="growth probe: 300 votes of one peer for distinct untracked rounds")
+    c.absorb(g)
+    os.remove(dump)
+
     # the code AS FOUND (before the fix: commits D1..D6): with the named deviations switched on the model must violate
     # the property - quick: all of them together; thorough: each one alone, against the invariant it is expected to break
     expected = {"ba-unchecked": "PeerStateOK", "or-short": "NoPanic", "proposal-total": "NoPanic", "lastcommit-nil": "NoPanic",
@@ -193,7 +213,7 @@ def run(c):
     # (3) the small reactors
     files = {"MCr.tla": "---- MODULE MCr ----\nEXTENDS MC_PeerReactors\nImplRV == {}\n====\n",
              "MCr.cfg": ("SPECIFICATION Spec\nCONSTANTS\n  ImplR <- ImplRV\n  Depth = %d\nVIEW View\nINVARIANT Returns\n"
-                         "INVARIANT OnlyVerifiedEvidence\nPROPERTY RejectedIsInert\nACTION_CONSTRAINT Dump\n") % 3}
+                         "INVARIANT OnlyVerifiedEvidence\nINVARIANT BcMutexFree\nPROPERTY RejectedIsInert\nACTION_CONSTRAINT Dump\n") % 3}
     dump = os.path.join(c.scratch, "peer-reactors.dump")
     r = c.tlc("peer", "MCr.cfg", module="MCr", files=files, dump_to=dump, timeout=1800, tag="MC_PeerReactors")
     must(c, r, "MC_PeerReactors")
@@ -209,6 +229,15 @@ def run(c):
     if r.violated != "Returns":
         raise Infra("companion run with deviation tx-nofetcher: expected a violation of Returns, TLC reports %s / %s" % (r.violated, r.error))
     c.extra["model_with_deviation_violates"]["tx-nofetcher"] = r.violated
+    # a seeded variant (never the code of /repo): ValidateMsg that only tests Block # nil lets an undecodable block reach the
+    # return-without-RUnlock of Receive: must violate BcMutexFree
+    files["MCr.tla"] = "---- MODULE MCr ----\nEXTENDS MC_PeerReactors\nImplRV == {\"bc-validate-nilonly\"}\n====\n"
+    r = c.tlc("peer", "MCr.cfg", module="MCr", files=files, timeout=600, tag="companion: MC_PeerReactors, deviation bc-validate-nilonly (must violate)")
+    c.states -= r.distinct
+    c.transitions -= r.generated
+    if r.violated != "BcMutexFree":
+        raise Infra("companion run with deviation bc-validate-nilonly: expected a violation of BcMutexFree, TLC reports %s / %s" % (r.violated, r.error))
+    c.extra["model_with_deviation_violates"]["bc-validate-nilonly"] = r.violated
 
     # (4) connection framing: hostile wire items on a real MConnection; then one layer down, sealed frames of a peer
     #     that holds the session keys, on the real SecretConnection + MConnection stack
